@@ -27,6 +27,8 @@ def gen1(seed, index):
         b = a + rng.choice([0, 1, G.unit])
     if a > b and not (bad and rng.random() < 0.5):
         a, b = b, a
+    if rng.random() < 0.15:
+        g.anonymise(t)          # leaves without a name: equal durations make distinct siblings ==
     return ["op", t, ["cut_off", a, b]]
 
 
